@@ -18,7 +18,7 @@ func genC08(t *rapid.T) *Case {
 	p.Title = false // no title: a content block is never rendered empty
 	p.NoSymbolLinks = true
 	media := []wc{{"figure", 10}, {"img", 10}, {"picture", 5}, {"lazy", 4}, {"video", 8}, {"youtube", 5}, {"vimeo", 4}, {"tweet", 4},
-		{"tweetframe", 3}, {"dtable", 8}, {"inlineimg", 5}, {"chrome", 8}, {"links", 5}, {"texttable", 8}, {"separator", 10}, {"aside", 4}, {"wrappedmedia", 10}, {"uspacer", 6}, {"jsmedia", 5}}
+		{"tweetframe", 3}, {"dtable", 8}, {"inlineimg", 5}, {"chrome", 8}, {"links", 5}, {"texttable", 8}, {"separator", 10}, {"aside", 4}, {"wrappedmedia", 10}, {"uspacer", 6}, {"jsmedia", 5}, {"bylinemedia", 5}}
 	p.Top = append(append([]wc{}, p.Top...), media...)
 	p.Core = append(append([]wc{}, p.Core...), media...)
 	p.Nested = append(append([]wc{}, nestedText...), wc{"figure", 6}, wc{"video", 4}, wc{"youtube", 3}, wc{"dtable", 4}, wc{"img", 6})
